@@ -62,6 +62,7 @@ def main():
     res["demo_passes_without_change"] = rc == 0
     rc, out = sh("git status --porcelain", REPO)
     res["repo_restored"] = not out.strip()
+    sh("%s tools/regen.py" % PY, VERIF)   # bring the generated Lean files back to the clean tree's
     dst = os.path.join(VERIF, "seeded", "%s-%s" % (pid, k))
     os.makedirs(dst, exist_ok=True)
     shutil.copy(patch, os.path.join(dst, "patch.diff"))
